@@ -55,22 +55,40 @@ def _abs_to_rel_moves(case):
     return hits
 
 
-def sig_external_to_internal_move(case, failure):
-    """KF-C18-7: the case moves the file of a spec from an absolute to a relative path and passes without those
-    moves (counterfactual run)"""
+def _passes_without(case, own):
+    """Counterfactual run for the two findings that share one root cause (files at absolute paths are registered
+    without a model): drop the operations that move such a file to a relative path (KF-C18-7) and those that bind a
+    value in a second model which has / gets a spec at an absolute path (KF-C18-8), repeatedly, and see whether the
+    case then passes.  True only if operations of kind ``own`` were among the dropped ones."""
     cur = case
-    dropped = 0
+    dropped = {"abs_to_rel": 0, "abs_shared": 0}
     for _ in range(8):
         o = run_case(cur)
-        hits = o.info.get("abs_to_rel")
+        hits = set()
+        for kind in dropped:
+            h = o.info.get(kind) or []
+            dropped[kind] += len(h)
+            hits |= set(h)
         if not hits:
-            return dropped > 0 and o.failure is None
+            return dropped[own] > 0 and o.failure is None
         cur = dict(cur, ops=[op for j, op in enumerate(cur["ops"]) if j not in hits])
-        dropped += len(hits)
     return False
 
 
-SIGNATURES = {"external_to_internal_move": sig_external_to_internal_move}
+def sig_external_to_internal_move(case, failure):
+    """KF-C18-7: the case moves the file of a spec from an absolute to a relative path and passes without those
+    moves (counterfactual run)"""
+    return _passes_without(case, "abs_to_rel")
+
+
+def sig_abs_spec_shared(case, failure):
+    """KF-C18-8: a value whose spec is at an absolute path is bound in a second model as well, and the case passes
+    without those cross-model assignments (counterfactual run)"""
+    return _passes_without(case, "abs_shared")
+
+
+SIGNATURES = {"external_to_internal_move": sig_external_to_internal_move,
+              "abs_spec_shared_across_models": sig_abs_spec_shared}
 
 NAMES = ["d0", "d1", "d2", "x"]
 PATHS = ["a.csv", "b.csv", "book.xlsx", "sub/c.csv", "ABS:a.csv"]    # ABS: = an absolute path outside the model
@@ -130,6 +148,9 @@ def histories(draw):
                 ops.append(["new_space_refs", mi, vi, name])
             else:
                 ops.append(["copy_space", mi, draw(st.sampled_from(["A", "C"]))])
+        elif k == 16 and nmodels == 2:
+            # the very object that is value vi of the OTHER model is bound to a name in this one (a plain assignment)
+            ops.append(["share_value", mi, where, name, draw(st.sampled_from([0, 1, 2, 3]))])
         elif k == 22:
             # the file of a spec is moved (to a free place, to a claimed one, from relative to absolute)
             ops.append(["set_path", mi, draw(st.sampled_from([0, 1, 2, 3])),
@@ -219,7 +240,12 @@ def check_model(st_, out, op, i, others=None):
     for vid in [vid for vid in st_.carrying if vid not in bound]:
         del st_.carrying[vid]
     want = set(st_.carrying)
-    specs = m.iospecs
+    # (a value of another open model bound here as well: its spec is that model's business)
+    foreign = set()
+    for other in (others or ()):
+        if other is not st_ and other.open:
+            foreign |= set(other.carrying)
+    specs = [s for s in m.iospecs if id(s.value) not in foreign or id(s.value) in want]
     got = {id(s.value) for s in specs}
     if got != want:
         def names(ids):
@@ -313,6 +339,7 @@ def _run(case, out, tmp):
     models = [ModelState(j) for j in range(case.get("nmodels", 1))]
     nt = False
     multi = set()       # ids of values that were bound to >=2 references incl. a derived one
+    shared_at = {}      # id(value) -> indices of the operations that bound it in a second model
     for i, op in enumerate(case["ops"]):
         k = op[0]
         st_ = models[op[1]]
@@ -342,6 +369,8 @@ def _run(case, out, tmp):
             if ok:
                 st_.carrying[id(v)] = (v, path, sheet)
                 out.count("accepted_creations")
+                if os.path.isabs(str(path)) and id(v) in shared_at:
+                    out.info.setdefault("abs_shared", []).extend(shared_at[id(v)])
             else:
                 out.count("rejected_creations")
                 try:
@@ -432,6 +461,10 @@ def _run(case, out, tmp):
             else:
                 if os.path.isabs(oldpath) and not os.path.isabs(newpath):
                     out.info.setdefault("abs_to_rel", []).append(i)
+                if os.path.isabs(newpath):
+                    for vid in st_.carrying:
+                        if vid in shared_at:
+                            out.info.setdefault("abs_shared", []).extend(shared_at[vid])
                 # (a workbook is one file: all the specs in it move together)
                 for vid, (v_, _, sheet) in list(st_.carrying.items()):
                     try:
@@ -507,6 +540,22 @@ def _run(case, out, tmp):
                     delattr(m, op[2])
             except Exception as exc:
                 return out.fail("del-space-raised", "%r raised %r" % (op, exc), i)
+        elif k == "share_value":
+            other = models[1 - op[1]]
+            if not other.open:
+                continue
+            v = other.value(op[4])
+            try:
+                setattr(st_.space(op[2]), op[3], v)
+            except KeyError:
+                continue
+            except Exception:
+                out.count("rejected_assignments")
+            else:
+                out.label("value_shared_by_two_models")
+                shared_at.setdefault(id(v), []).append(i)
+                if id(v) in other.carrying and os.path.isabs(str(other.carrying[id(v)][1])):
+                    out.info.setdefault("abs_shared", []).append(i)
         elif k == "new_space_refs":
             v = st_.value(op[2])
             if v is None or (op[2] >= 10 and id(v) not in st_.carrying):
